@@ -121,12 +121,15 @@ def fn_body(f):
     return body + [["stop"]]
 
 
-GETTER = {"sig": "get(uint256)", "body": [["mstore", 0, ["sload", e2e.arg(0)]], ["return", 0, 32]], "mutability": "view", "outputs": [{"name": "", "type": "uint256"}]}
+# one view getter per slot (a getter with a slot *argument* would make halmos stop at the symbolic
+# storage base slot whenever it is selected as a target)
+GETTER_SIGS = ["get0()", "get1()", "get2()"]
+GETTER_FNS = [{"sig": f"get{k}()", "body": [["mstore", 0, ["sload", ["c", k]]], ["return", 0, 32]], "mutability": "view", "outputs": [{"name": "", "type": "uint256"}]} for k in range(3)]
 
 
 def target_functions(t, order):
     fns = [{"sig": fn_sig(f, i), "body": fn_body(f), "mutability": "payable" if f["payable"] else "nonpayable"} for i, f in enumerate(t["fns"])]
-    fns.append(GETTER)
+    fns += [dict(g) for g in GETTER_FNS]
     rng = random.Random(order)
     if order:
         rng.shuffle(fns)
@@ -170,7 +173,7 @@ def sel_of(case, cname, idx):
         return e2e.selector("bump()")
     t = next(t for t in case["targets"] if t["name"] == cname)
     if idx >= len(t["fns"]):
-        return e2e.selector("get(uint256)")
+        return e2e.selector(GETTER_SIGS[0])
     return e2e.selector(fn_sig(t["fns"][idx], idx))
 
 
@@ -180,8 +183,8 @@ def inv_body(inv, case):
         val = ["sload", ["c", inv["slot"]]]
         pre = []
     else:
-        data = bytes.fromhex(e2e.selector("get(uint256)")) + inv["slot"].to_bytes(32, "big")
-        pre = [["memw", 0x500, data.hex()], ["call", "STATICCALL", addr_expr(inv["contract"], case), ["c", 0], 0x500, 36, 0x540, 32, 0x560]]
+        data = bytes.fromhex(e2e.selector(GETTER_SIGS[inv["slot"]]))
+        pre = [["memw", 0x500, data.hex()], ["call", "STATICCALL", addr_expr(inv["contract"], case), ["c", 0], 0x500, 4, 0x540, 32, 0x560]]
         val = ["mload", 0x540]
     return pre + [["if", cmp_expr(inv["cmp"], val, ["c", inv["c"]]), [], e2e.panic_stmts(1)], ["stop"]]
 
@@ -256,13 +259,13 @@ def filter_model(case, addrs):
             continue
         t = next(t for t in case["targets"] if t["name"] == n)
         allf = [(fn_sig(fn, i), e2e.selector(fn_sig(fn, i)), fn) for i, fn in enumerate(t["fns"])]
-        getter = ("get(uint256)", e2e.selector("get(uint256)"), None)
+        getters = [(g, e2e.selector(g), None) for g in GETTER_SIGS]
         if tsel.get(n):
             want = {sel_of(case, n, i) for i in tsel[n]}
-            fl = [x for x in allf + [getter] if x[1] in want]
+            fl = [x for x in allf + getters if x[1] in want]
         elif xsel.get(n):
             drop = {sel_of(case, n, i) for i in xsel[n]}
-            fl = [x for x in allf + [getter] if x[1] not in drop]
+            fl = [x for x in allf + getters if x[1] not in drop]
         else:
             fl = allf
         out.append((n, addrs[n], fl))
